@@ -186,7 +186,9 @@ func (s *Statement) unevict(
 	}
 	reclaimee.GPUGroups = previousGpuGroups
 	reclaimee.IsVirtualStatus = previousIsVirtualStatus
-	reclaimee.ResourceClaimInfo = previousResourceClaimInfo
+	// a copy: the operation keeps its saved value, so that undoing a later redo of this eviction restores the same
+	// allocation again (the deallocate handlers write into the task's current map)
+	reclaimee.ResourceClaimInfo = previousResourceClaimInfo.Clone()
 
 	// Update task in node.
 	if node != nil {
@@ -473,7 +475,7 @@ func (s *Statement) unpipeline(
 	hostname := task.NodeName
 	task.NodeName = previousNode
 	task.GPUGroups = previousGpuGroups
-	task.ResourceClaimInfo = previousResourceClaimInfo
+	task.ResourceClaimInfo = previousResourceClaimInfo.Clone()
 	task.IsVirtualStatus = previousIsVirtualStatus
 
 	if node, found := s.ssn.ClusterInfo.Nodes[hostname]; found {
